@@ -8,6 +8,7 @@ package main
 // line carries that node's state again.
 
 import (
+	abci "github.com/tendermint/tendermint/abci/types"
 	"crypto/sha256"
 	"encoding/json"
 	"fmt"
@@ -33,6 +34,10 @@ func (c *Chain) Clone() *Chain {
 	n.ReactCons = map[int]string{}
 	for k, v := range c.ReactCons {
 		n.ReactCons[k] = v
+	}
+	n.EndEvents = map[int64][]abci.Event{}
+	for k, v := range c.EndEvents {
+		n.EndEvents[k] = v
 	}
 	n.cbs = nil
 	n.EvReqs = nil
